@@ -177,6 +177,32 @@ func (g *gen) genC15() {
 			}
 		}
 	}
+	// apply with a pre-bound argument that is NOT a typed value: untyped constants of every kind for every
+	// (named) basic parameter type, named constants, nil for every nil-able type, concrete values for an
+	// interface parameter. The type of the bound parameter has to come from the function, not the argument.
+	type ae struct {
+		t       int
+		expr    string
+		payload int
+		tag     string
+	}
+	aes := []ae{
+		{0, "7", 7, "int-const"}, {0, "3.0", 3, "float-const"}, {0, "'a'", 97, "rune-const"}, {0, "K", 3, "named-const"},
+		{1, "\"5\"", 5, "string-const"}, {2, "true", 1, "bool-const"},
+		{3, "2", 2, "int-const"}, {3, "'a'", 97, "rune-const"}, {3, "2.0", 2, "float-const"}, {3, "K", 3, "named-const"},
+		{4, "2", 2, "int-const"}, {4, "K", 3, "named-const"}, {4, "KT", 4, "typed-const"}, {4, "'a'", 97, "rune-const"}, {4, "4.0", 4, "float-const"},
+		{5, "\"5\"", 5, "string-const"}, {14, "true", 1, "bool-const"},
+		{15, "7", 7, "int-const"}, {15, "'a'", 97, "rune-const"}, {15, "K", 3, "named-const"},
+		{8, "nil", 0, "nil"}, {9, "nil", 0, "nil"}, {10, "nil", 0, "nil"}, {11, "nil", 0, "nil"}, {13, "nil", 0, "nil"},
+		{11, "5", 5, "iface-const"}, {11, "mk0(6)", 6, "iface-concrete"}, {11, "K", 3, "iface-named-const"},
+	}
+	for i, e := range aes {
+		n := 1 + i%4 // also the one-parameter form: deriveApply(f, v)()
+		ps := g.params(naming("named", n))
+		ps[n-1].T = e.t
+		g.add(&funcs.Class{Prop: "C15", Kind: "apply", Tag: "argexpr:" + e.tag, Ps: ps, Rs: g.types(1+i%3, false),
+			LastExpr: e.expr, LastPayload: e.payload})
+	}
 	// tuple
 	for n := 1; n <= 5; n++ {
 		g.add(&funcs.Class{Prop: "C15", Kind: "tuple", Tag: "direct", Ts: g.types(n, false)})
